@@ -43,6 +43,10 @@ def scenarios(ctx, rng):
     # widest PRINTED name, and colours/prefixes of the printing sources are unaffected
     scs.append(pc.text_scenario(rng, w, 87, names=['a.log', 'bb.log'], silent=[(2, 'a-much-longer-name-that-prints-nothing.log', 'old')]))
     scs.append(pc.text_scenario(rng, w, 88, names=['a.log', 'bb.log'], silent=[(1, 'silent-and-wider-than-the-others.log', 'nolog')]))
+    # messages that share a second or a millisecond but not the instant (steps of 0 s, 9-digit fractions): with a -d format finer than
+    # the default every message must carry ITS OWN instant (seeded change C13-d: a cache of the last formatted field keyed on milliseconds)
+    scs.append(pc.text_scenario(rng, w, 86, names=['a.log', 'bb.log'], steps=(0, 0, 0, 0, 1), nmsgs=(10, 16),
+                                fracs=(0, 1000, 2000, 250000, 999000, 999999, 1000000, 1000001, 500000000, 999999999)))
     scs.append(pc.wtmp_text_scenario(rng, w, 91))
     scs.append(pc.evtx_scenario(rng, w, 92 + ctx.seed % 3))
     scs.append(pc.journal_scenario(rng, w, 95, mode='short'))
